@@ -108,6 +108,14 @@ add('C12', 'model_checking',
     'TLA+ spec Values.tla: TLC builds every history a = D ; copy / `$v.path = x` / function(json parameter) assigning into it over 4 document shapes, 4 scalars and all path classes, checks that the transcribed implementation (names -> heap objects, copy = marshal+parse, alter loop descending by type, converting at the leaf) yields exactly the value-semantics result of the property and exports expected documents, read-back, frame and leaves per step; every history is run by the real interpreter and compared',
     'After every operation each variable is printed and every leaf is read on its own with `$v.path`; judged: other variables never change; when an assignment reports success every other path keeps its value and, where the property defines the result, read-back and whole document equal the specification.',
     'assignments murex rejects are not judged on the assigned variable; bool<->number/string leaf conversions: only frame/other variables judged', 'DESIGN §6 C12')
+add('C06', 'model_checking',
+    'TLA+ spec Expr.tla: TLC checks the transcribed parse/fold machine of executeExpr (orderOfOperations groups, leftmost fold, scan restart, branch parser for parentheses) against the declarative precedence rule on every enumerated expression and on seeded random deeper ones (invariant Agree, liveness on a small family) and exports the expected values; every expression is evaluated by the real interpreter and compared',
+    'All expressions of <=3 operands x the 10 operators x every parenthesised group, every pair of 20 number spellings under every operator, string comparisons, and 4000/30000 random token sequences (nesting <=6) are evaluated by TLC with exact dyadic arithmetic and IEEE-754 Inf/NaN/signed zero; each is rendered and run as assignment with value+type read-back, bare statement, `expr` and inline `out (...)`; value and primitive type must equal the table.',
+    'values whose exact result is not a small dyadic (0.1, 1/3) and operand kinds the property does not combine (bool<num, str+num) are executed but not judged', 'DESIGN §6 C06')
+add('C07', 'model_checking',
+    'TLA+ spec Expr.tla (&& || ?: ??, truthiness table): TLC checks the transcribed fold machine against the rule on every enumerated expression and on random parenthesised trees and exports expected values and the truth table; expressions run on the real interpreter as `v = (E)` with value+type read-back; the truth table is pushed through if{}, ->if, ->!, !if and ?:',
+    'All a<op>b over 57 operand forms (true false null, undefined variable, numbers, the 9 false words and other words in three spellings, parenthesised comparisons) x 4 operators, every 3-operand shape over 8 operands x 16 operator pairs, 3000/20000 random trees; 171 (word, exit number) rows x 5 entry points.',
+    'expressions where different operator classes meet inside one pair of parentheses are executed, not judged; undefined variable judged only as left operand of ??', 'DESIGN §6 C07')
 
 
 def main():
